@@ -23,7 +23,8 @@ Record cl := mkcl {
   nisland : Z;             (* d->nisland *)
   efcp : list Z;           (* the pointers of MJDATA_ARENA_POINTERS_SOLVER, 0 = NULL *)
   islp : list Z;           (* the pointers of MJDATA_ARENA_POINTERS_ISLAND, 0 = NULL *)
-  warns : list (Z * Z)     (* mj_warning calls (kind, info), newest first *)
+  warns : list (Z * Z);    (* mj_warning calls (kind, info), newest first *)
+  dualp : list Z           (* pointers of MJDATA_ARENA_POINTERS_DUAL set by mj_makeY / mj_makeAR, 0 = NULL *)
 }.
 
 (* [Done ret c]: the function returned ret;  [ErrExit c]: mju_error was raised;
@@ -34,14 +35,14 @@ Definition set_parena (s : st) (p : Z) : st :=
   mkst (base s) (narena s) p (pstack s) (pbase s) (maxs s) (maxa s) (tlock s) (mem s).
 Definition wr (s : st) (a len : Z) : st :=
   mkst (base s) (narena s) (parena s) (pstack s) (pbase s) (maxs s) (maxa s) (tlock s) (MC a len 0 :: mem s).
-Definition with_ms (c : cl) (s : st) : cl := mkcl s (ncon c) (nefc c) (nisland c) (efcp c) (islp c) (warns c).
+Definition with_ms (c : cl) (s : st) : cl := mkcl s (ncon c) (nefc c) (nisland c) (efcp c) (islp c) (warns c) (dualp c).
 Definition warn (c : cl) (k info : Z) : cl :=
-  mkcl (ms c) (ncon c) (nefc c) (nisland c) (efcp c) (islp c) ((k, info) :: warns c).
+  mkcl (ms c) (ncon c) (nefc c) (nisland c) (efcp c) (islp c) ((k, info) :: warns c) (dualp c).
 Definition nulls (l : list Z) : list Z := map (fun _ => 0) l.
 
 (* mj_clearEfc: every arena pointer NULL, nefc = nisland = 0 *)
 Definition clear_efc (c : cl) : cl :=
-  mkcl (ms c) (ncon c) 0 0 (nulls (efcp c)) (nulls (islp c)) (warns c).
+  mkcl (ms c) (ncon c) 0 0 (nulls (efcp c)) (nulls (islp c)) (warns c) (nulls (dualp c)).
 
 (* pushPairArena(d, pair).  [fixed = true] is the code as it is now: the result [new_pair] is
    tested and mjERROR is raised;  [fixed = false] is the code before /repo's repair: the NULL
@@ -57,7 +58,7 @@ Definition add_contact (ga : bool) (csz cal : Z) (c : cl) : outc :=
   let c1 := clear_efc (with_ms c (set_parena (ms c) (wrap (ncon c * csz)))) in
   match arena_alloc ga (ms c1) csz cal with
   | (RPtr p, s') =>
-      Done 0 (mkcl (wr s' p csz) (ncon c1 + 1) (nefc c1) (nisland c1) (efcp c1) (islp c1) (warns c1))
+      Done 0 (mkcl (wr s' p csz) (ncon c1 + 1) (nefc c1) (nisland c1) (efcp c1) (islp c1) (warns c1) (dualp c1))
   | (_, _) => Done 1 (warn c1 WARN_CONTACTFULL (ncon c))
   end.
 
@@ -81,7 +82,7 @@ Fixpoint alloc_list (ga : bool) (s : st) (reqs : list (Z * Z)) : option (list Z)
 Definition alloc_efc (ga : bool) (csz : Z) (reqs : list (Z * Z)) (c : cl) : outc :=
   let s0 := set_parena (ms c) (wrap (ncon c * csz)) in
   match alloc_list ga s0 reqs with
-  | (Some ps, s') => Done 1 (mkcl s' (ncon c) (nefc c) (nisland c) ps (islp c) (warns c))
+  | (Some ps, s') => Done 1 (mkcl s' (ncon c) (nefc c) (nisland c) ps (islp c) (warns c) (dualp c))
   | (None, s') =>
       Done 0 (clear_efc (warn (with_ms c (set_parena s' (wrap (ncon c * csz)))) WARN_CNSTRFULL (narena (ms c))))
   end.
@@ -94,18 +95,81 @@ Definition alloc_efc (ga : bool) (csz : Z) (reqs : list (Z * Z)) (c : cl) : outc
 Definition alloc_island (ga ic : bool) (csz : Z) (reqs : list (Z * Z)) (c : cl) : outc :=
   let old := parena (ms c) in
   match alloc_list ga (ms c) reqs with
-  | (Some ps, s') => Done 1 (mkcl s' (ncon c) (nefc c) (nisland c) (efcp c) ps (warns c))
+  | (Some ps, s') => Done 1 (mkcl s' (ncon c) (nefc c) (nisland c) (efcp c) ps (warns c) (dualp c))
   | (None, s') =>
       if ic then
         Done 0 (clear_efc (warn (with_ms c (set_parena s' (wrap (ncon c * csz)))) WARN_CNSTRFULL (narena (ms c))))
       else
         Done 0 (mkcl (set_parena s' old) (ncon c) 0 0 (efcp c) (nulls (islp c))
-                     ((WARN_CNSTRFULL, narena (ms c)) :: warns c))
+                     ((WARN_CNSTRFULL, narena (ms c)) :: warns c) (dualp c))
+  end.
+
+(* mj_makeY (sparse and dense branch) and the dense branch of mj_makeAR.  The function brackets its
+   stack use with mj_markStack / mj_freeStack and proceeds in phases: some mjSTACKALLOCs, then a
+   group of arena allocations that are ALL performed before their results are tested together, and
+   after the test the arrays of the group are written.  [tested] lists the positions of the group
+   whose pointers the NULL test looks at: the code as it is tests every pointer of the group; a
+   test that leaves one out makes the function write through NULL when that allocation fails. *)
+Fixpoint alloc_all (ga : bool) (s : st) (reqs : list (Z * Z)) : list Z * st :=
+  match reqs with
+  | [] => ([], s)
+  | (bytes, al) :: r =>
+      match arena_alloc ga s bytes al with
+      | (RPtr p, s') => let (ps, s'') := alloc_all ga s' r in (p :: ps, s'')
+      | (_, s') => let (ps, s'') := alloc_all ga s' r in (0 :: ps, s'')
+      end
+  end.
+
+Fixpoint stack_all (gs gt : bool) (s : st) (reqs : list (Z * Z)) : option st :=   (* None: mju_error *)
+  match reqs with
+  | [] => Some s
+  | (bytes, al) :: r =>
+      match stack_alloc gs gt s bytes al with
+      | (RErr, _) => None
+      | (_, s') => stack_all gs gt s' r
+      end
+  end.
+
+Definition has_null (l : list Z) : bool := existsb (fun p => p =? 0) l.
+Definition test_fails (tested : list nat) (ps : list Z) : bool :=
+  existsb (fun i => nth i ps 1 =? 0) tested.
+
+Inductive pres := PDone (acc : list Z) (s : st) | PFail (s : st) | PErr | PNull.
+Definition phase := (list (Z * Z) * list (Z * Z) * list nat)%type.
+
+Fixpoint run_phases (gs gt ga : bool) (phs : list phase) (s : st) (acc : list Z) : pres :=
+  match phs with
+  | [] => PDone acc s
+  | (sreqs, areqs, tested) :: r =>
+      match stack_all gs gt s sreqs with
+      | None => PErr
+      | Some s1 =>
+          let (ps, s2) := alloc_all ga s1 areqs in
+          if test_fails tested ps then PFail s2
+          else if has_null ps then PNull
+          else run_phases gs gt ga r s2 (acc ++ ps)
+      end
+  end.
+
+Definition alloc_dual (gs gt ga : bool) (csz : Z) (phs : list phase) (c : cl) : outc :=
+  match mark gs (ms c) with
+  | (RErr, _) => ErrExit c
+  | (_, s1) =>
+      match run_phases gs gt ga phs s1 [] with
+      | PErr => ErrExit c
+      | PNull => NullWrite
+      | PFail s2 =>
+          let s3 := snd (free (set_parena s2 (wrap (ncon c * csz)))) in
+          Done 0 (clear_efc (warn (with_ms c s3) WARN_CNSTRFULL (narena (ms c))))
+      | PDone acc s2 =>
+          Done 1 (mkcl (snd (free s2)) (ncon c) (nefc c) (nisland c) (efcp c) (islp c) (warns c) acc)
+      end
   end.
 
 (* what the driver prints after a site call:
    [kind; ret; parena; pstack; maxuse_arena; ncon; nefc; nisland] ++ efc pointers ++ island pointers
-   ++ [number of warnings raised by the call; kind; info] (kind = info = 0 if none) *)
+   ++ [number of warnings raised by the call; kind; info] (kind = info = 0 if none);
+   [obs_dual] additionally prints the dual pointers of the call *)
 Definition obs_cl (nw0 : nat) (o : outc) : list Z :=
   match o with
   | Done ret c =>
@@ -116,4 +180,10 @@ Definition obs_cl (nw0 : nat) (o : outc) : list Z :=
        end)
   | ErrExit c => [1]
   | NullWrite => [2]
+  end.
+
+Definition obs_dual (nw0 : nat) (o : outc) : list Z :=
+  match o with
+  | Done _ c => obs_cl nw0 o ++ dualp c
+  | _ => obs_cl nw0 o
   end.
